@@ -26,7 +26,22 @@ var c19IDs = []string{
 	"LONG", "",
 }
 
+// c19Twins: distinct identifiers that some "sanitising" step would map to the same key
+// (path cleaning, slash/case folding, trimming, URL escaping, Unicode normalisation).
+var c19Twins = [][]string{
+	{"acme/../widget", "widget", "./widget", "widget/", "acme//../widget"},
+	{"https://example.com/sbom//1", "https:/example.com/sbom/1", "https://example.com/sbom/1"},
+	{"Doc-A", "doc-a", "DOC-A"},
+	{" padded", "padded", "padded ", "padded\n"},
+	{"a%2Fb", "a/b", "a\\b"},
+	{"caf\u00e9", "cafe\u0301"},
+	{"x", "x\x00", "x."},
+}
+
 func c19ID(r *rand.Rand) string {
+	if r.Intn(3) == 0 {
+		return gen.Pick(r, gen.Pick(r, c19Twins))
+	}
 	id := c19IDs[r.Intn(len(c19IDs))]
 	if id == "LONG" {
 		return "long-" + strings.Repeat("x", 1<<20)
@@ -74,7 +89,7 @@ func entryName(id string) string { return fmt.Sprintf("%x.protobom", sha256.Sum2
 func init() {
 	core.Register(&core.Prop{
 		ID: "C19", Level: "exploration",
-		Rule: "each case is a history of <=10 Store/Retrieve calls (two thirds of the cases: one fresh child process per call; one third: the whole history in ONE process on one FileSystem instance, sometimes with a second instance on the same directory, so that state kept inside the backend is observed; uid 65534; the FileSystem backend directly or through writer.Writer.Store / reader.Reader.Retrieve) against a map model id->document: configured directory missing (one or three levels deep) or existing; identifiers with path separators, dot-dot, absolute paths, unicode, newline, 1 MB, empty; both no-clobber settings; nil options. " +
+		Rule: "each case is a history of <=10 Store/Retrieve calls (two thirds of the cases: one fresh child process per call; one third: the whole history in ONE process on one FileSystem instance, sometimes with a second instance on the same directory, so that state kept inside the backend is observed; uid 65534; the FileSystem backend directly or through writer.Writer.Store / reader.Reader.Retrieve) against a map model id->document: configured directory missing (one or three levels deep) or existing; identifiers with path separators, dot-dot, absolute paths, unicode, newline, 1 MB, empty, and groups of distinct identifiers that a normalisation step (path cleaning, case folding, trimming, escaping, Unicode normalisation) would collapse; both no-clobber settings; nil options. " +
 			"After EVERY call: the result is compared with the model (proto.Equal), every known id is retrieved again (isolation), the scratch tree around the configured path is listed with content hashes (confinement: every file lies inside the directory; no-clobber: existing entry bytes unchanged). " +
 			"Fault steps: unknown id, entry chmod 000, a directory in place of the entry, 0-byte / truncated / bit-flipped entry, and - under the ptrace injector - EACCES/EIO/ENOSPC/EMFILE on the k-th file-system syscall of a Store or Retrieve for EVERY k of the fault-free run; " +
 			"every outcome must be a document or an error RETURN: never a dead process, neither/both, or an empty document. A sample of stores runs under the tracer to check that every created/renamed path is under the directory. distinct = hash of the history; non-trivial = history with >=2 different ids stored.",
@@ -248,10 +263,13 @@ func c19Case(c *core.C) {
 				fail("no-clobber-not-refused", "%s: an entry exists and no-clobber is set, yet Store returned %s", step, o.kind)
 				return
 			}
-			ent := filepath.Join(store, entryName(id))
-			if treeState(outer)[ent] != before[ent] {
-				fail("no-clobber-entry-changed", "%s: the existing entry's bytes changed although no-clobber is set", step)
-				return
+			// nothing in the directory may have changed (the refused store must not touch any entry)
+			after := treeState(outer)
+			for p, h := range before {
+				if strings.HasPrefix(p, store+"/") && after[p] != h {
+					fail("no-clobber-entry-changed", "%s: an existing entry's bytes changed although no-clobber is set (%s)", step, filepath.Base(p))
+					return
+				}
 			}
 		default:
 			if o.kind != "OK" {
@@ -310,10 +328,21 @@ func c19Case(c *core.C) {
 	if victim == "" {
 		return
 	}
-	ent := filepath.Join(store, entryName(victim))
-	orig, err := os.ReadFile(ent)
-	if err != nil {
-		fail("entry-not-where-documented", "the entry of %s is not at %s: %v", short(victim), ent, err)
+	// locate the victim's entry by content, not by assuming how entries are named
+	ent := ""
+	var orig []byte
+	for p := range treeState(store) {
+		b, rerr := os.ReadFile(p)
+		if rerr != nil {
+			continue
+		}
+		d := &sbom.Document{}
+		if proto.Unmarshal(b, d) == nil && proto.Equal(d, model[victim]) {
+			ent, orig = p, b
+		}
+	}
+	if ent == "" {
+		c.Inconclusive("cannot locate the entry file of the victim identifier in the store directory (storage layout changed?)")
 		return
 	}
 	restore := func() {
